@@ -30,7 +30,24 @@ for d in sorted(glob.glob(V + "/seeded/*")):
     if j.get("note"):
         res += " — " + esc(j["note"])[:200]
     sd.append("| %s | %s | %s | %s | %s |" % (os.path.basename(d), j["property"], esc(j["breaks"])[:240], esc(j["needs_to_manifest"])[:200], res))
-blocks = {"FIXES": "\n".join(fx), "KNOWN": "\n".join(kn), "SEEDS": "\n".join(sd)}
+import sys
+sys.path.insert(0, V + "/harness")
+from vt import registry
+pp = []
+for pid in sorted(registry.CHECKS):
+    c = registry.CHECKS[pid]
+    files = sorted(set(os.path.basename(f) for f in glob.glob(V + "/coq/Props/%s.v" % pid) + glob.glob(V + "/coq/Check/%s*K.v" % pid)))
+    nthm = len(re.findall(r"^\s*(?:Theorem|Example)\s", open(V + "/coq/Props/%s.v" % pid).read(), flags=re.M))
+    ev = {}
+    try:
+        ev = json.load(open(V + "/evidence/%s.json" % pid))
+    except Exception:
+        pass
+    cov = ev.get("coverage", {})
+    pp.append("**%s** — %s\n\n* *What is proved and how it is tied:* %s\n* *Assumed / trusted / not covered:* %s\n* *As of the last recorded run:* %d theorems+examples in `Props/%s.v`; %s obligations (P/G/K = %s), %s cases, tier %s, %.0f s.\n" % (
+        pid, c["technique"], c["text"], c["note"], nthm, pid, cov.get("obligations", "?"),
+        "/".join(str(cov.get("obligation_kinds", {}).get(k, "?")) for k in ("P", "G", "K")), cov.get("evaluations", "?"), ev.get("tier", "?"), ev.get("wall_s", 0)))
+blocks = {"FIXES": "\n".join(fx), "KNOWN": "\n".join(kn), "SEEDS": "\n".join(sd), "PERPROP": "\n".join(pp)}
 p = V + "/DESIGN.md"
 s = open(p).read()
 for k, v in blocks.items():
